@@ -34,6 +34,9 @@ def is_zombie_returns(it, env):
 IS_ZOMBIE = Contract("C12", LINUX_PY, "Process._is_zombie", callee_only=True, returns=is_zombie_returns,
                      note="assumed here (verified under C03): True iff the stat record says 'Z'")
 REGISTRY.add(IS_ZOMBIE)
+# ... and verified here too, against the stat-record model of C06 (arbitrary command names)
+from . import C06 as _c06z   # noqa: E402
+REGISTRY.add(_c06z.IS_Z)
 
 
 def h_split(it, s, sep):
